@@ -21,7 +21,7 @@ import wgslgen
 # builtins with a recorded finding (known_findings.jsonl: op:round_f32:tie, op:firstleadingbit_u32:all_ones); the
 # float->int saturation findings are avoided by wgslgen's default f2i_safe clamp; dot() is generated on f32 only
 AVOID = ("round:f32", "firstLeadingBit")
-GEN_OPTS = {"avoid": AVOID}
+GEN_OPTS = {"avoid": AVOID, "agg_bias": 5, "dyn_index_den": 2}
 
 
 def _walk_exprs(x, fn):
@@ -118,7 +118,7 @@ def _eq(a, b):
     return json.dumps(a, sort_keys=True) == json.dumps(b, sort_keys=True)
 
 
-def clear_of_findings(prog):
+def clear_of_findings(prog, rng=None):
     """Rewrite that keeps a generated program clear of the recorded C04 findings that cannot be switched off by
     generator options (the rewritten program is what is compiled AND what the reference interprets):
 
@@ -131,7 +131,11 @@ def clear_of_findings(prog):
             index inside [ ]); in operand position (binary/unary operator, base of . or [ ], right side of a compound
             assignment, select condition) it is hoisted into a `let` in front of the statement.  All generated
             expressions are total, so the hoisted program is valid; its own meaning is the reference.
-    round / firstLeadingBit are avoided through the `avoid` option."""
+    round / firstLeadingBit are avoided through the `avoid` option.
+
+    With rng: additionally, one constructor in three of an array / matrix / vector-from-scalars gets all its components
+    replaced by ONE let-bound value (`let r = e; array<T,3>(r, r, r)`): the same IR handle repeated, the shape back ends
+    special-case as a "splat" (wgslgen draws every component separately, so it hardly ever produces it)."""
     p = copy.deepcopy(prog)
     ty = Typer(p)
 
@@ -192,6 +196,14 @@ def clear_of_findings(prog):
             c = cont[key]
             child_safe = (s is True) or (s == "selcond" and ternary(c, env) == "select")
             cont[key] = visit(c, env, child_safe, out, hoist)
+        if rng is not None and hoist and k == "cons" and len(e["args"]) >= 2 and isinstance(e["t"], list) and \
+                (e["t"][0] in ("arr", "mat") or (e["t"][0] == "vec" and len(e["args"]) == e["t"][1])) and rng.chance(1, 3):
+            counter[0] += 1
+            n = "r_%d" % counter[0]
+            t = ty.of(e["args"][0], env)
+            out.append({"s": "let", "n": n, "t": t, "e": e["args"][0]})
+            env[n] = (t, "val")
+            e["args"] = [{"e": "var", "n": n} for _ in e["args"]]
         kind = ternary(e, env)
         if kind and not safe:
             if not hoist:
@@ -275,14 +287,14 @@ def gen_programs(rng, n, opts=None):
     for k in range(n):
         r = rng.fork("gen/%d" % k)
         prog, _src = wgslgen.generate(r.fork("p"), o)
-        prog = clear_of_findings(prog)
+        prog = clear_of_findings(prog, r.fork("repeat"))
         out.append(("gen%d" % k, prog, wgslgen.render(prog)))
     return out
 
 
 # ------------------------------------------------------------------ classification
 
-def classify(plan, setname, a, b, has_wg=False):
+def classify(plan, setname, a, b, has_wg=False, all_parsed=True):
     """(class, detail) of one pair of results; class is one of
        agree | differ | msl-fail:<kind> | oof:<why> | undefined | intentional"""
     if not a.get("ok"):
@@ -291,6 +303,9 @@ def classify(plan, setname, a, b, has_wg=False):
         return "intentional", "workgroup memory deliberately not zero-initialised"
     if not b.get("ok"):
         msg = str(b.get("msg"))
+        if all_parsed and msg.startswith(("not modelled: unknown identifier", "not modelled: unknown function")):
+            # every item of the text was read, so the name is declared nowhere: the MSL does not compile
+            return "msl-fail:undeclared name", msg
         if b.get("kind") in ("outoffuel", "decode", "crash") or msg.startswith("not modelled"):
             return "oof:interpreter", "%s %s" % (b.get("kind"), msg[:80])
         return "msl-fail:" + msg_class(msg), msg
@@ -347,7 +362,7 @@ class Single:
         except Exception as e:
             b = {"ok": False, "kind": "crash", "msg": str(e)[-200:]}
         has_wg = any(sp == "SpaceWorkGroup" and h in plan.used for h, sp, b_, ty in plan.globals)
-        c, d = classify(plan, setname, a, b, has_wg)
+        c, d = classify(plan, setname, a, b, has_wg, not ast["unparsed"])
         self.last = {"src": src, "msl": m["text"], "detail": d, "input": inp}
         return c, d
 
